@@ -168,14 +168,19 @@ class Unit:
     # ---- emission ------------------------------------------------------------------------------------
     def render(self):
         for qual, digest in self.pins.items():
-            got = pin_of(self.src.get(qual))
+            if '::' in qual:            # 'relative/file.py::qual' — a helper that lives in another file
+                rel, q = qual.split('::', 1)
+                node = Source(os.path.join(os.path.dirname(self.src.path), rel)).get(q)
+            else:
+                node = self.src.get(qual)
+            got = pin_of(node)
             if got != digest:
                 raise Unsupported(f'pinned helper `{qual}` changed (AST digest {got}, pinned {digest})')
         out = [f'import {m}' for m in self.imports]
         out += ['/-!', f'# GENERATED by harness/py2lean.py from `{os.path.relpath(self.src.path, os.path.dirname(os.path.dirname(self.src.path)))}`'
                ' on every run. Do not edit.', '',
                'One definition per (function, static argument types) instance of the current source text.', '-/']
-        out += ['', f'namespace {self.ns}', '']
+        out += ['', 'set_option linter.unusedVariables false', '', f'namespace {self.ns}', '']
         if self.header:
             out += [self.header, '']
         for inst in self.insts:
@@ -215,6 +220,7 @@ class FnTr:
         self.env = {}            # python local -> Val
         self.narrow = {}         # access path -> Val (after a truthiness / `is None` test)
         self.fresh = 0
+        self.pending = []        # raising calls met inside an expression: (bound name, Lean text), innermost last
         self.fields = {}         # __init__: attribute -> Val
         for n, t in inst.params:
             self.env[n] = Val(lname(n), t, path=n)
@@ -234,7 +240,15 @@ class FnTr:
         c.u, c.inst, c.fn = self.u, self.inst, self.fn
         c.env, c.narrow, c.fields = dict(self.env), dict(self.narrow), dict(self.fields)
         c.fresh = self.fresh
+        c.pending = []
         return c
+
+    def wrap(self, text):
+        """bind the raising calls met while translating the expression(s) `text` reads, in evaluation order"""
+        for name, call in reversed(self.pending):
+            text = f'match {call} with\n| Except.error e => Except.error e\n| Except.ok {name} =>\n{_indent(text)}'
+        self.pending = []
+        return text
 
     def gensym(self, base):
         self.fresh += 1
@@ -242,14 +256,14 @@ class FnTr:
 
     # ---- results ---------------------------------------------------------------------------------------
     def ok(self, text):
-        return f'.ok {_paren(text)}' if self.inst.raises else text
+        return f'Except.ok {_paren(text)}' if self.inst.raises else text
 
     def err(self, exc):
         if not self.inst.raises:
             raise Unsupported(f'`{self.inst.qual}`: reachable `raise` in an instance declared not to raise')
         name = {'ValueError': 'ERR:Value', 'TypeError': 'ERR:Type', 'KeyError': 'ERR:Key', 'IndexError': 'ERR:Index',
                 'NotImplementedError': 'ERR:Other:NotImplementedError'}.get(exc, 'ERR:Other:' + exc)
-        return f'.error "{name}"'
+        return f'Except.error "{name}"'
 
     # ---- statements ------------------------------------------------------------------------------------
     def function_body(self):
@@ -320,11 +334,11 @@ class FnTr:
             if not self.inst.raises:
                 raise Unsupported(f'`{self.inst.qual}`: returns a call that may raise, but is declared not to raise')
             if v.typ == want:
-                return v.text
+                return self.wrap(v.text)
             if want == 'Opt ' + v.typ:
-                return f'({v.text}).map some'
+                return self.wrap(f'({v.text}).map some')
             raise Unsupported(f'`{self.inst.qual}`: returns {v.typ}, declared {want}')
-        return self.ok(self.coerce(v, want))
+        return self.wrap(self.ok(self.coerce(v, want)))
 
     def coerce(self, v, want):
         if v.typ == want:
@@ -371,10 +385,11 @@ class FnTr:
             t_some.narrow[v.path] = Val(name, v.typ[4:], path=v.path)
             some_txt = (then_k if present_is_true else else_k)(t_some)
             none_txt = (else_k if present_is_true else then_k)(t_none)
-            return f'match {v.text} with\n| some {name} =>\n{_indent(some_txt)}\n| none =>\n{_indent(none_txt)}'
+            return self.wrap(f'match {v.text} with\n| some {name} =>\n{_indent(some_txt)}\n| none =>\n{_indent(none_txt)}')
         c = self.truth(self.expr(test))
         a, b = self.sub(), self.sub()
-        return f'if {c} then\n{_indent(then_k(a))}\nelse\n{_indent(else_k(b))}'
+        a.fresh = b.fresh = self.fresh
+        return self.wrap(f'if {c} then\n{_indent(then_k(a))}\nelse\n{_indent(else_k(b))}')
 
     def has_optional_test(self, test):
         if isinstance(test, ast.BoolOp):
@@ -465,8 +480,17 @@ class FnTr:
                     self.env[t.id] = Val(nm, v.typ, path=t.id)
                     self.narrow.pop(t.id, None)
                     inner = self.block(rest)
-                    return '\n'.join(lets + [f'match {v.text} with', '| .error e => .error e', f'| .ok {nm} =>', _indent(inner)])
+                    return '\n'.join(lets + [f'match {v.text} with', '| Except.error e => Except.error e', f'| Except.ok {nm} =>', _indent(inner)])
                 nm = self.gensym(lname(t.id))
+                if self.pending:
+                    self.env[t.id] = Val(nm, v.typ, path=t.id)
+                    self.narrow.pop(t.id, None)
+                    pend, self.pending = self.pending, []
+                    inner = self.block(rest) if (t, v) == pairs[-1] else None
+                    if inner is None:
+                        raise Unsupported(f'`{self.inst.qual}`: raising call inside a tuple assignment')
+                    self.pending = pend
+                    return '\n'.join(lets + [self.wrap(f'let {nm} := {v.text}\n{inner}')])
                 lets.append(f'let {nm} := {v.text}')
                 self.env[t.id] = Val(nm, v.typ, path=t.id)
                 self.narrow.pop(t.id, None)
@@ -492,15 +516,20 @@ class FnTr:
             raise Unsupported(f'`{self.inst.qual}`: loop over {xs.typ}')
         if len(s.body) == 1 and isinstance(s.body[0], ast.If) and not s.body[0].orelse and len(s.body[0].body) == 1 \
                 and isinstance(s.body[0].body[0], ast.Return) and isinstance(s.body[0].body[0].value, ast.Constant) \
-                and isinstance(s.body[0].body[0].value.value, bool) and not self.inst.raises:
+                and isinstance(s.body[0].body[0].value.value, bool):
             k = s.body[0].body[0].value.value
             x = self.gensym(lname(s.target.id))
             inner = self.sub()
+            inner.fresh = self.fresh
             inner.env[s.target.id] = Val(x, xs.typ[5:], path=s.target.id)
             c = inner.truth(inner.expr(s.body[0].test))
+            if inner.pending:
+                raise Unsupported(f'`{self.inst.qual}`: a call that may raise inside a loop test')
             self.fresh = inner.fresh
+            pend, self.pending = self.pending, []
             after = self.block(rest)
-            return f'if ({xs.text}).any (fun {x} => {c}) then {"true" if k else "false"} else\n{_indent(after)}'
+            self.pending = pend
+            return self.wrap(f'if ({xs.text}).any (fun {x} => {c}) then {self.ok("true" if k else "false")} else\n{_indent(after)}')
         raise Unsupported(f'`{self.inst.qual}`: loop body is not a single early `return True/False`')
 
     # ---- expressions -----------------------------------------------------------------------------------
@@ -524,7 +553,11 @@ class FnTr:
     def expr(self, e, allow_raise=False):
         v = self._expr(e)
         if getattr(v, 'raises', False) and not allow_raise:
-            raise Unsupported(f'`{self.inst.qual}`: a call that may raise inside an expression: `{ast.unparse(e)}`')
+            if not self.inst.raises:
+                raise Unsupported(f'`{self.inst.qual}`: a call that may raise inside an expression: `{ast.unparse(e)}`')
+            name = self.gensym('r')
+            self.pending.append((name, v.text))
+            return Val(name, v.typ)
         return v
 
     def _expr(self, e):
@@ -586,6 +619,8 @@ class FnTr:
             if len(vals) == 2 and vals[0].typ == vals[1].typ:
                 return Val(f'({vals[0].text}, {vals[1].text})', 'Pair ' + vals[0].typ)
             raise Unsupported(f'tuple `{ast.unparse(e)}`')
+        if isinstance(e, ast.ListComp):
+            return self.list_comp(e)
         if isinstance(e, ast.Call):
             return self.call(e)
         raise Unsupported(f'`{self.inst.qual}`: expression `{ast.unparse(e)[:80]}` ({type(e).__name__})')
@@ -660,6 +695,9 @@ class FnTr:
             if not (hook and hook(self, e)):
                 raise Unsupported(f'`{self.inst.qual}`: keyword arguments in `{ast.unparse(e)[:80]}`')
         f = e.func
+        if isinstance(f, ast.Call) and isinstance(f.func, ast.Name) and f.func.id == 'type' and len(f.args) == 1 \
+                and 'type_ctor' in self.u.hooks:
+            return self.u.hooks['type_ctor'](self, self.expr(f.args[0]), [self.expr(a) for a in e.args])
         if isinstance(f, ast.Name):
             if f.id in ('min', 'max') and len(e.args) == 2:
                 a, b = self.expr(e.args[0]), self.expr(e.args[1])
@@ -716,6 +754,36 @@ class FnTr:
         v = Val(f'({txt})', inst.value_type)
         v.raises = inst.raises
         return v
+
+    def list_comp(self, e):
+        """`[x for x in xs if c]` -> `xs.filter`; with a test that may raise -> `xs.filterM` in `Except`"""
+        if len(e.generators) != 1 or not isinstance(e.generators[0].target, ast.Name) or len(e.generators[0].ifs) != 1 \
+                or not (isinstance(e.elt, ast.Name) and e.elt.id == e.generators[0].target.id):
+            raise Unsupported(f'`{self.inst.qual}`: comprehension other than `[x for x in xs if c]`')
+        xs = self.expr(e.generators[0].iter)
+        if not xs.typ.startswith('List '):
+            raise Unsupported(f'comprehension over {xs.typ}')
+        x = self.gensym(lname(e.elt.id))
+        inner = self.sub()
+        inner.fresh = self.fresh
+        inner.env[e.elt.id] = Val(x, xs.typ[5:], path=e.elt.id)
+        test = e.generators[0].ifs[0]
+        if inner.has_optional_test(test):
+            body = inner.branch(test, lambda tr: tr.ok('true'), lambda tr: tr.ok('false'))
+            raising = 'Except.error' in body
+        else:
+            c = inner.truth(inner.expr(test))
+            raising = bool(inner.pending)
+            body = inner.wrap(inner.ok(c)) if raising else c
+        self.fresh = inner.fresh
+        if raising and self.inst.raises:
+            v = Val(f'(GV.Py.filterE (fun {x} => (show Except String Bool from\n{_indent(body, 4)})) {_paren(xs.text)})', xs.typ)
+            v.raises = True
+            return v
+        if self.inst.raises:
+            # the instance may raise but this test can not: undo the `.ok` wrapping of the branch leaves
+            body = body.replace('Except.ok true', 'true').replace('Except.ok false', 'false')
+        return Val(f'(({xs.text}).filter (fun {x} =>\n{_indent(body, 4)}))', xs.typ)
 
     def any_all(self, which, g):
         if len(g.generators) != 1 or g.generators[0].ifs or not isinstance(g.generators[0].target, ast.Name):
